@@ -281,6 +281,7 @@ def accumulate (h : HN) (axis : Nat) : HN := { h with freq := h.freq.cumsum axis
 
 /-- `merge_bins` along one axis with an explicit map -/
 def mergeAxisWithMap (fo : FloatOps) (h : HN) (axis : Nat) (map : List Nat) : R HN := do
+  if map.isEmpty then throw "empty bin map"      -- `max()` of an empty bin map: an axis without bins
   match h.axes[axis]? with
   | none => throw "no such axis"
   | some bn =>
